@@ -175,6 +175,18 @@ theorem C15_inline_right (o : ROpts) (input : Str) (found total nsel : Nat) (hin
   simp only [hi, hinfo]
   cases o.separator <;> simp
 
+/-- **--info=right**: the counter sits at the right end of the info row (one margin cell after
+    it), the separator — or blanks — before it; the row below the prompt is that row. -/
+theorem C15_info_right (o : ROpts) (found total nsel : Nat) (hinfo : o.info = .right)
+    (hroom : (infoText o found total nsel).length + 2 ≤ o.W) :
+    ((infoRow o found total nsel).drop (o.W - (infoText o found total nsel).length - 1)).take
+        (infoText o found total nsel).length = infoText o found total nsel ∧
+    (infoRow o found total nsel).length = o.W ∧ (o.inputless = false → promptLines o = 2) := by
+  obtain ⟨h1, h2⟩ := infoRow_right o found total nsel hinfo hroom
+  refine ⟨h1, h2, fun hi => ?_⟩
+  unfold promptLines noSepLine
+  simp [hi, hinfo]
+
 /- Non-vacuity: a concrete screen. -/
 example :
     let o : ROpts := { W := 12, H := 5, layout := .default, info := .default, separator := true, pointer := [62], marker := [42],
